@@ -94,7 +94,7 @@ impl<'a> Gen<'a> {
         let k = self.r.below(if d >= self.depth { 60 } else { 100 });
         if k < 18 { let a = *self.r.pick(&ATOMS); return (a.to_string(), atom!(a)); }
         if k < 28 { let i = *self.r.pick(&[0i64, 1, 7, 42, -3, -15, 123456789]); return (i.to_string(), SInteger(i)); }
-        if k < 36 { let f = *self.r.pick(&[2.5f64, 0.5, 100.25, -0.75, 3.125]); return (f.to_string(), SFloat(f)); }
+        if k < 36 { let f = *self.r.pick(&[2.5f64, 0.5, 100.25, -0.75, 3.125, 0.0000012, 0.00001, -0.000001, 0.00000015, 123456789012.5, 4503599627370495.5, 0.1, 1234.5678]); return (f.to_string(), SFloat(f)); }
         if k < 54 { let v = *self.r.pick(&VARS); return (v.to_string(), logic_var!(v)); }
         if k < 60 { return ("$_".to_string(), Unifiable::Anonymous); }
         if k < 80 {
@@ -463,6 +463,7 @@ pub fn run_reader(out: &mut Out, cfg: &Cfg, seed: u64, n: usize) {
             file.push('\n');
         }
         if !out.begin() { continue; }
+        let texts0 = texts.clone();
         let id = out.case(&format!("reader {}", hex(&file)));
         let path = dir.join(format!("kb_{}.txt", ci));
         std::fs::write(&path, &file).unwrap();
@@ -477,6 +478,19 @@ pub fn run_reader(out: &mut Out, cfg: &Cfg, seed: u64, n: usize) {
             Ok(Ok(ts)) => { let mut t = format!("texts {}", ts.len()); for x in &ts { t.push(' '); t.push_str(&hex(x)); t.push('.'); } t },
             Ok(Err(_)) => "texts err".to_string(), Err(_) => "texts panic".to_string() };
         let _ = std::fs::remove_file(&path2);
+        // the same file loaded into a knowledge base that already holds these rules: every predicate must then
+        // have its clauses twice, in order (loading appends, it does not replace)
+        let path3 = dir.join(format!("kb_{}_c.txt", ci));
+        std::fs::write(&path3, &file).unwrap();
+        let appended = catch_unwind(AssertUnwindSafe(|| -> Option<(String, String)> {
+            let mut pre = KnowledgeBase::new();
+            for t in &texts0 { match parse_rule(t) { Ok(rule) => add_rules(&mut pre, vec![rule]), Err(_) => return None } }
+            let mut twice = KnowledgeBase::new();
+            for t in texts0.iter().chain(texts0.iter()) { match parse_rule(t) { Ok(rule) => add_rules(&mut twice, vec![rule]), Err(_) => return None } }
+            if load_kb_from_file(&mut pre, path3.to_str().unwrap()).is_some() { return None; }
+            Some((format_kb(&pre), format_kb(&twice)))
+        }));
+        let _ = std::fs::remove_file(&path3);
         let (rec, verdict): (String, Result<(), String>) = match (&loaded, &direct) {
             (Ok((kb1, e1)), Ok((kb2, e2))) => {
                 let rec = match e1 { None => {
@@ -489,6 +503,7 @@ pub fn run_reader(out: &mut Out, cfg: &Cfg, seed: u64, n: usize) {
                 let v = if e2.is_some() { Ok(()) }      // a rule the rule parser itself rejects: outside (C19's business)
                         else if e1.is_some() { Err(format!("a file of parsable rules was rejected: {}", e1.clone().unwrap())) }
                         else if format_kb(kb1) != format_kb(kb2) { Err("the loaded knowledge base differs from parsing the rules one by one".to_string()) }
+                        else if let Ok(Some((a, b))) = &appended { if a != b { Err("loading into a knowledge base that already holds clauses of the same predicates does not append the file's rules in order".to_string()) } else { Ok(()) } }
                         else { Ok(()) };
                 (rec, v)
             },
